@@ -28,10 +28,13 @@ package main
 // A fault-free twin (FastCommit, 1 worker) records, per commit, the ledger and the SetValue calls with
 // their class.  Then, for every commit, every sampled fault target (all if <= 12 calls, else first,
 // last, two of each class, random ones) and the commit flavours {FastCommit, NondeterministicFastCommit}
-// x workers {1,2,8} (quick: one of each flavour per target with rotating worker counts; mode suffix
-// "+all": all six), the history is re-executed from scratch (a live storage with wrappers cannot be
-// cloned; the history is a function of its seed) and the target call fails.  Oracles (none uses a model):
+// x workers {1,2,8} (+ 3 for the order-relaxed commit; quick: one of each flavour per target with rotating
+// worker counts; mode suffix "+all": all seven), the history is re-executed from scratch (a live storage
+// with wrappers cannot be cloned; the history is a function of its seed) and the target call fails; the
+// failing call of an order-relaxed commit is SLOW (2 ms before the error comes back, a ledger timing out)
+// when it is a deletion and for every other target.  Oracles (none uses a model):
 //
+//   - every commit attempt, faulted or not, RETURNS (watchdog of commit_watchdog.go);
 //   - a commit returns an error iff a ledger call failed during it; the error is *ExternalError;
 //   - every change pending before the attempt whose SetValue succeeded has left the write set and its
 //     register equals the twin's bytes (absent for deletions); every other one is still pending,
@@ -62,6 +65,7 @@ import (
 	"sort"
 	"strings"
 	"sync"
+	"time"
 
 	"github.com/onflow/atree"
 	testutils "github.com/onflow/atree/test_utils"
@@ -113,7 +117,8 @@ type lfLedger struct {
 	armIDOn bool
 	log     []lfCall
 	fired   int
-	bad     string // a call with an owner/key that is not (8-byte address, "$"+8-byte index)
+	bad     string        // a call with an owner/key that is not (8-byte address, "$"+8-byte index)
+	slow    time.Duration // an armed SetValue takes this long before it reports its failure (a ledger timing out)
 }
 
 var _ atree.Ledger = &lfLedger{}
@@ -141,6 +146,7 @@ func (l *lfLedger) armRegister(id atree.SlabID) { l.armID = id; l.armIDOn = true
 func (l *lfLedger) disarm() {
 	l.armAt = [4]int{-1, -1, -1, -1}
 	l.armIDOn = false
+	l.slow = 0
 }
 func (l *lfLedger) resetLog() { l.log = l.log[:0]; l.fired = 0 }
 
@@ -202,6 +208,9 @@ func (l *lfLedger) SetValue(owner, key, value []byte) error {
 	}
 	l.log = append(l.log, lfCall{kind, id, fail, had})
 	if fail {
+		if l.slow > 0 {
+			time.Sleep(l.slow) // only the committing goroutine calls the ledger: nobody waits for the mutex
+		}
 		return errInjected
 	}
 	if len(value) == 0 {
@@ -388,9 +397,10 @@ func lfNewSpec(hr *Rng, world bool) lfSpec {
 
 type lfExec struct {
 	*hexec
-	sp  lfSpec
-	led *lfLedger
-	seg int
+	sp   lfSpec
+	led  *lfLedger
+	seg  int
+	hung string // non-empty: a commit did not return (watchdog); the storage is abandoned
 }
 
 // lfNewExec: the World of workload.go with its storage replaced, before any container exists, by a
@@ -598,21 +608,27 @@ func (e *lfExec) runSeg() {
 	})
 }
 
-// commit runs one commit and returns its error and the SetValue calls the ledger saw during it.
+// commit runs one commit under the watchdog of commit_watchdog.go and returns its error and the SetValue
+// calls the ledger saw during it; e.hung is set (and the history must be abandoned) when it did not return.
 func (e *lfExec) commit(nondet bool, workers int) (error, []lfCall, int) {
 	e.led.resetLog()
-	var err error
-	e.guard(func() {
-		if nondet {
-			err = e.w.St.NondeterministicFastCommit(workers)
-		} else {
-			err = e.w.St.FastCommit(workers)
-		}
-	})
+	npend := e.w.St.DeltasWithoutTempAddresses()
+	o := watchedCommit(e.w.St, nondet, workers)
+	if o.hung != "" {
+		e.led.mu.Lock()
+		calls := clip(lfLogStr(e.led.log), 200)
+		e.led.mu.Unlock()
+		e.hung = fmt.Sprintf("%s with %d owned pending slabs: %s | ledger calls so far: %s", commitFlavour(nondet, workers), npend, o.hung, calls)
+		e.fail("commit did not return", e.hung)
+		return nil, nil, 0
+	}
+	if o.pan != "" {
+		e.fail("panic in implementation", o.pan)
+	}
 	log := append([]lfCall(nil), e.led.log...)
 	fired := e.led.fired
 	e.led.resetLog()
-	return err, log, fired
+	return o.err, log, fired
 }
 
 // lfOpen opens every root by its slab identifier in a storage, through fresh wrappers.
@@ -725,6 +741,10 @@ func lfRunTwin(sp lfSpec, rep *Report, rr *Rng, viol func(step int, what, detail
 			break
 		}
 		err, log, _ := e.commit(false, 1)
+		if e.hung != "" {
+			e.what, e.detail = "C14: a fault-free commit does not return", e.hung
+			break
+		}
 		if e.failed {
 			break
 		}
@@ -886,7 +906,7 @@ type lfVariant struct {
 
 var lfVariants = []lfVariant{
 	{"fast-w1", false, 1}, {"fast-w2", false, 2}, {"fast-w8", false, 8},
-	{"nondet-w1", true, 1}, {"nondet-w2", true, 2}, {"nondet-w8", true, 8},
+	{"nondet-w1", true, 1}, {"nondet-w2", true, 2}, {"nondet-w3", true, 3}, {"nondet-w8", true, 8},
 }
 
 type lfTarget struct {
@@ -895,8 +915,10 @@ type lfTarget struct {
 	byID bool
 }
 
-// lfRunFaulted re-executes the history; commit c fails at the target; returns the number of faulted attempts.
-func lfRunFaulted(sp lfSpec, twin lfTwin, c int, tg lfTarget, v lfVariant, fr *Rng, rep *Report, viol func(step int, what, detail string)) int {
+// lfRunFaulted re-executes the history; commit c fails at the target (slow: the failing SetValue takes
+// slowFaultDelay before it returns its error); returns the number of faulted attempts; *wedged is set when
+// a commit did not return (watchdog) — the storage of the case is then abandoned.
+func lfRunFaulted(sp lfSpec, twin lfTwin, c int, tg lfTarget, v lfVariant, slow bool, wedged *bool, fr *Rng, rep *Report, viol func(step int, what, detail string)) int {
 	e := lfNewExec(sp, NewReport("", 0))
 	w, led := e.w, e.led
 	ctx := fmt.Sprintf("commit #%d of %d, %s", c, len(twin.snaps), v.name)
@@ -906,6 +928,11 @@ func lfRunFaulted(sp lfSpec, twin lfTwin, c int, tg lfTarget, v lfVariant, fr *R
 
 	commitPlain := func() bool {
 		err, log, _ := e.commit(v.nondet, v.workers)
+		if e.hung != "" {
+			*wedged = true
+			bad("C14: a commit during which no ledger call fails does not return", e.hung)
+			return false
+		}
 		if e.failed {
 			return false
 		}
@@ -947,12 +974,22 @@ func lfRunFaulted(sp lfSpec, twin lfTwin, c int, tg lfTarget, v lfVariant, fr *R
 		if armExists {
 			led.arm(lfExists, 0)
 		}
+		if slow && first {
+			led.slow = slowFaultDelay
+			how += " after " + slowFaultDelay.String()
+		}
 		err, log, fired := e.commit(v.nondet, v.workers)
+		badA := func(what, detail string) { bad(what, how+" | "+detail) }
+		if e.hung != "" {
+			*wedged = true
+			rep.Event("commit_did_not_return")
+			badA("C14: a commit with a failing ledger call does not return (it neither reports the error nor finishes)", e.hung)
+			return false
+		}
 		led.disarm()
 		if e.failed {
 			return false
 		}
-		badA := func(what, detail string) { bad(what, how+" | "+detail) }
 		okCalls := map[atree.SlabID]byte{}
 		var failedCall lfCall
 		nFail, afterFail := 0, 0
@@ -1101,6 +1138,9 @@ func lfRunFaulted(sp lfSpec, twin lfTwin, c int, tg lfTarget, v lfVariant, fr *R
 			e.reloadCheck()
 		}
 	}
+	if e.hung != "" {
+		return attempts // reported where it happened
+	}
 	if led.bad != "" {
 		e.fail("the adapter called the ledger with a malformed owner/key", led.bad)
 	}
@@ -1158,7 +1198,7 @@ func cmdLedgerFault(a Args) {
 	rep.Rule = "storages over the PRODUCTION adapter atree.NewLedgerBaseStorage on an in-memory atree.Ledger whose SetValue (writes and deletions) / GetValue / ValueExists / AllocateSlabIndex can be armed to fail, without effect, at the k-th call or (SetValue) on a given register. " +
 		"Histories: 1-3 roots (arrays+maps, nested containers depth<=3, large values, T in {256,300,512,1024}, absent registers answered nil or empty non-nil) and 2-5 segments each followed by a commit; a segment is a run of random World operations or a burst on one container of any depth: grow 20-250, shrink 50-97%, in-place rewrite, clear, churn (mode world: only random operations; mode phases: first segment grows, at least one shrinks; default: 2 of 3 histories phases) - so later commits contain first writes, overwrites of persisted registers, deletions of persisted registers and deletions of never-persisted ones. " +
 		"A fault-free twin (FastCommit, 1 worker) records ledger and SetValue calls per commit, checks a fresh storage over a copy of the ledger (deep-equal to the shadow, CheckStorageHealth, every register reached from the roots) and GetValue faults at 4 sampled positions of a full traversal (ExternalError, retry on the same storage complete; Storage.Retrieve). " +
-		"For every commit, every fault target (all calls if <=12, else first, last, 2 per class, random up to 12; +all: 24) and flavour (one FastCommit and one NondeterministicFastCommit with rotating workers 1/2/8; +all: all six; nondet targets alternate between call position and register) the history is re-executed and the call fails: commit must return an *ExternalError iff a call failed; each pending change either left the write set with its register equal to the twin's bytes or is still pending, unaltered, with its register untouched; Deltas/DeltasWithoutTempAddresses/HasUnsavedChanges agree; Storage.Retrieve, VerifyArray/VerifyMap, deep shadow comparison and the traversal fingerprint are unchanged; then retries with 0-3 further faults (random position or the same register) until success: ledger byte-identical to the twin (allocation counters included), nothing owned pending, health check, fresh-storage reload (35%); or (25%) no retry and the NEXT commit must give the twin's ledger; the history continued to the end gives the twin's final ledger. AllocateSlabIndex armed during a container creation (30% of cases) and ValueExists armed during faulted commits (15%). " +
+		"For every commit, every fault target (all calls if <=12, else first, last, 2 per class, random up to 12; +all: 24) and flavour (one FastCommit with rotating workers 1/2/8 and one NondeterministicFastCommit with rotating workers 1/2/3/8; +all: all seven; nondet targets alternate between call position and register; the failing call of a NondeterministicFastCommit takes 2 ms before it fails when it is a deletion and for every other target) the history is re-executed and the call fails: EVERY commit attempt (faulted or not) runs under a watchdog and must return (20 s, or all goroutines of the process parked for 1 s); commit must return an *ExternalError iff a call failed; each pending change either left the write set with its register equal to the twin's bytes or is still pending, unaltered, with its register untouched; Deltas/DeltasWithoutTempAddresses/HasUnsavedChanges agree; Storage.Retrieve, VerifyArray/VerifyMap, deep shadow comparison and the traversal fingerprint are unchanged; then retries with 0-3 further faults (random position or the same register) until success: ledger byte-identical to the twin (allocation counters included), nothing owned pending, health check, fresh-storage reload (35%); or (25%) no retry and the NEXT commit must give the twin's ledger; the history continued to the end gives the twin's final ledger. AllocateSlabIndex armed during a container creation (30% of cases) and ValueExists armed during faulted commits (15%). " +
 		"non-trivial = history with >=2 commits of >=2 ledger calls whose faulted cases hit a deletion and an overwrite; distinct by twin final digest. histories are added until -steps faulted commit attempts were made (or -n histories)"
 	rng := NewRng(a.Seed)
 	defer atree.VerifSetThreshold(1024)
@@ -1179,6 +1219,10 @@ func cmdLedgerFault(a Args) {
 		}
 		if total >= budget {
 			rep.Event("budget_exhausted")
+			break
+		}
+		if wdExhausted() {
+			rep.Event("run_stopped_after_commits_that_did_not_return")
 			break
 		}
 		world := h%3 == 2
@@ -1204,6 +1248,7 @@ func cmdLedgerFault(a Args) {
 		fr := hr.Fork(99)
 		multi := 0
 		hit := [4]int{}
+		wedged := false // a commit did not return: the history is abandoned
 		rot := fr.Intn(3)
 		for c, log := range twin.logs {
 			W := len(log)
@@ -1221,15 +1266,18 @@ func cmdLedgerFault(a Args) {
 				if all {
 					vs = lfVariants
 				} else {
-					vs = []lfVariant{lfVariants[(rot+ti)%3], lfVariants[3+(rot+ti+c)%3]}
+					vs = []lfVariant{lfVariants[(rot+ti)%3], lfVariants[3+(rot+ti+c)%4]}
 				}
 				for vi, v := range vs {
-					if len(rep.Violations) > nviol+5 {
+					if len(rep.Violations) > nviol+5 || wedged {
 						break
 					}
 					t := tg
 					t.byID = v.nondet && (ti+vi)%2 == 0
-					total += lfRunFaulted(sp, twin, c, t, v, fr.Fork(uint64(c*1000+ti*10+vi)), rep, viol) // own generator per case: the order of a NondeterministicFastCommit must not shift the later cases
+					// the failing call of the order-relaxed commit is slow when it is a deletion (issued while the
+					// encoder goroutines are starting) and in every other remaining case
+					slow := v.nondet && (log[tg.pos].Kind == 'D' || ti%2 == 0)
+					total += lfRunFaulted(sp, twin, c, t, v, slow, &wedged, fr.Fork(uint64(c*1000+ti*10+vi)), rep, viol) // own generator per case: the order of a NondeterministicFastCommit must not shift the later cases
 					rep.Event("cases")
 					hit[log[tg.pos].class()]++
 				}
